@@ -3,6 +3,7 @@ import math, os
 from fractions import Fraction as Fr
 import vlib
 from vlib import Toks, lst, f2h, h2f
+from props import c05_translate
 
 ID = "C05"
 LEVEL = "proof"
@@ -27,6 +28,12 @@ OBLIGATIONS = [NS + t for t in [
     # solver_state_t: Lagrangian gradient, KKT residuals, stored multipliers (Model/PenaltyState.lean)
     "lagrangian_grad_eq_def", "kkt3_eq_zero_iff", "kktAll_le_imp_eps_kkt", "al_returned_multipliers", "zero_multipliers_state",
     "foldl_axpy_spec", "assignMult_spec", "alLoop_multInv",
+    # translation round (Proofs/PenaltyGen.lean): the model's definitions are the formulas regenerated from the C++ source
+    "model_penaltyVgrad_is_generated", "model_linearOp_is_generated", "model_quadraticOp_is_generated",
+    "model_alVgrad_eq_is_generated", "model_alVgrad_ineq_is_generated", "model_penStep_is_generated",
+    "model_makeRo1_is_generated", "model_criterion_is_generated", "model_alInit_is_generated",
+    "model_alConverged_is_generated", "model_alImproved_is_generated", "model_alStep_stop_is_generated",
+    "model_alStep_updates_are_generated", "model_xConverged_is_generated",
 ]]
 TRUSTED = [
     "Lean 4.33.0 kernel + the Mathlib modules imported by Proofs/Penalty.lean, Proofs/AugLag.lean, Proofs/PenaltySolver.lean, "
@@ -48,6 +55,13 @@ TRUSTED = [
     "the model's stored multipliers and Lagrangian gradient from the dumped gradients",
     "tools/props/c05.py generator + exact-rational (fractions.Fraction) oracle of the header formulas; harness/c05.cpp; "
     "g++/libstdc++/Eigen",
+    "tools/props/c05_translate.py (with the expression parser of c01_translate.py): the translator of the per-constraint kernels of "
+    "penalty.cpp (guards, values, gradient factors of the three do_vgrads), make_ro1, make_criterion, the decisions / ro / multiplier / "
+    "penalty updates of augmented.cpp and solver/penalty.cpp and solver_t::more_precise into Gen/PenaltyKernels.lean, Gen/AugLagStep.lean "
+    "(statement shapes matched in order, Eigen array statements read element by element: a.max(b) = std::max on coefficients); "
+    "Proofs/PenaltyGen.lean proves the hand-written model equal to the generated text for every scalar type; what stays hand-written: the "
+    "loop skeletons (iteration over the constraints, threading of fx / gx / multiplier cursors, best-state bookkeeping), the "
+    "infinity norms and dot products (maxL, dot), nano::converged (Gen/DoneLogic.lean of C01 has its scalar form), state.cpp",
 ]
 ASSUMPTIONS = [
     "exact arithmetic: the theorems are about an arbitrary linear ordered field, not binary64 (NaN/inf, rounding in the "
@@ -79,6 +93,15 @@ RULE = ("pen eval: objectives (15 registered functions through the factory, rand
         "max_outer_iters in {10,11,20,100}, max_evals in {50..5000}; a pen case is non-trivial when it has >= 1 equality, >= 1 "
         "violated and >= 1 satisfied inequality; an al / ps case when it has >= 1 constraint; distinct by op text")
 FLAVOUR = {"quick": "plain", "thorough": "asan"}
+
+
+def translate():
+    """Gen/PenaltyKernels.lean (the per-constraint kernels of src/function/penalty.cpp) and Gen/AugLagStep.lean (the scalar logic of the
+    outer loops of src/solver/augmented.cpp, src/solver/penalty.cpp, solver_t::more_precise) from the source of the tree under check"""
+    c05_translate.T.translate()      # the shared fragment Gen/DoneLogic.lean (solver_t::done, nano::converged) of the same tree, as C01 / C02 do
+    return c05_translate.translate()
+
+
 HARNESS_TIMEOUT = 1500
 RTOL = 1e-12   # tolerant sections only (Eigen reductions); everything else is compared by value, exactly
 ATOL = 1e-11
